@@ -223,7 +223,7 @@ def run(ctx, ck):
     # decided on the symbolic walk as well: one iteration of every loop, loop variables bound to the
     # element (`self.loads[_k0]`), comprehension elements as _each(...), helper lists expanded
     import re as _re
-    from ..symx import canon_k
+    from ..symx import canon_k, row_values
     _paths_cache = {}
 
     def wpaths(q):
@@ -309,9 +309,10 @@ def run(ctx, ck):
         npaths = 0
         for p_ in wpaths(q):
             npaths += 1
-            hit = [canon_k(norm(e_)) for e_, st_ in line_exprs(p_)
+            hit = [e_ for e_, st_ in line_exprs(p_)
                    if any(isinstance(c_, ast.Constant) and isinstance(c_.value, str) and label in c_.value for c_ in ast.walk(e_))]
-            got.add(tuple(want_ in h_ for h_ in hit))
+            # the announced number is exactly the count: a value of the row, not part of a larger expression
+            got.add(tuple(want_ in [canon_k(norm(v_)) for v_ in (row_values(h_) or [])] for h_ in hit))
         ok = got == {(True,)}
         ck.ob('R-EXH.rows', q + '|count', ok, f.loc(), 'line "%s" announces %s on all %d paths' % (label, want_, npaths)
               if ok else 'line "%s" does not announce %s on every path: %s' % (label, want_, sorted(got)))
@@ -338,12 +339,41 @@ def run(ctx, ck):
                and isinstance(x_.value, ast.Name) and isinstance(x_.ctx, ast.Load):
                 cuts.append((g_, x_))
     ck.floor('truncating slices in format_float', len(cuts), 1)
-    for g_, c_ in cuts:
+    from ..cfg import must_conds
+
+    def point_guarded(g_, node_, v, seen=()):
+        """every way to reach node_ in g_ has passed `'.' in v` (tested in g_ itself - also by an early
+        return - or, v being a parameter of a private helper, at every call site of the helper)"""
         gfl_ = ctx.flow(g_)
+        facts = set(must_conds(gfl_.cfg).get(gfl_.node_id_of(enclosing_stmt(node_)), set()))
+        ch_, pa_ = node_, parent(node_)
+        while pa_ is not None and not isinstance(pa_, ast.stmt):
+            if isinstance(pa_, ast.IfExp) and ch_ is not pa_.test:
+                facts.add((norm(pa_.test), ch_ is pa_.body))
+            ch_, pa_ = pa_, parent(pa_)
+        if ("'.' in %s" % v, True) in facts or ("'.' not in %s" % v, False) in facts:
+            return True, sorted(t if b else 'not (%s)' % t for t, b in facts)
+        shown = sorted(t if b else 'not (%s)' % t for t, b in facts)
+        if v in g_.params and g_.name.startswith('_') and g_.qual not in seen:
+            # the parameter must still hold the caller's value at the cut
+            redefined = any(isinstance(n_, ast.Name) and n_.id == v and isinstance(n_.ctx, ast.Store) and
+                            n_.lineno < node_.lineno for n_ in ast.walk(g_.node))
+            sites = [e for es in prog.edges.values() for e in es if e.kind == 'call' and e.callee is g_]
+            if sites and not redefined:
+                pos = g_.params.index(v)
+                oks = []
+                for e in sites:
+                    call = e.node
+                    arg = call.args[pos] if isinstance(call, ast.Call) and pos < len(call.args) else None
+                    if not isinstance(arg, ast.Name):
+                        return False, shown
+                    oks.append(point_guarded(e.caller, call, arg.id, seen + (g_.qual,))[0])
+                if all(oks):
+                    return True, shown + ['(tested at all %d call sites)' % len(sites)]
+        return False, shown
+    for g_, c_ in cuts:
         v = c_.value.id
-        st_ = enclosing_stmt(c_)
-        g = [t for t, b in if_chain_preds(gfl_.cfg, gfl_.node_id_of(st_)) if b]
-        ok = ("'.' in %s" % v) in g
+        ok, g = point_guarded(g_, c_, v)
         ck.ob('R-FMT.truncate-guard', '%s|%s' % (ff.qual, norm(c_)), ok, g_.loc(c_),
               'truncation %s under guards %s' % (norm(c_), g) if ok else
               'truncation %s is not guarded by a decimal-point test (guards %s): integers of more than '
